@@ -31,11 +31,15 @@ type onStarted interface {
 	VerifOnStartedLeading(ctx context.Context)
 }
 
-// becomeLeader acquires (or takes over) the lock through the real resource lock and then runs the
-// production OnStartedLeading code.
-func becomeLeader(kv storage.KvStorage, identity string) (backend.Backend, resourcelock.Interface, error) {
+// newCandidate builds a node over the store: its backend and its (long-lived) resource lock.
+func newCandidate(kv storage.KvStorage, identity string) (backend.Backend, resourcelock.Interface) {
 	b := backend.NewBackend(kv, backend.Config{Prefix: "/r", Identity: identity, WatchCacheSize: 16}, hx.NopMetrics{})
-	rl := b.GetResourceLock()
+	return b, b.GetResourceLock()
+}
+
+// takeOver acquires (or takes over) the lock through the real resource lock, the way client-go's
+// elector does (get, create-or-update, get), and then runs the production OnStartedLeading code.
+func takeOver(b backend.Backend, rl resourcelock.Interface, identity string) error {
 	rec := resourcelock.LeaderElectionRecord{HolderIdentity: identity, LeaseDurationSeconds: 8}
 	_, err := rl.Get()
 	switch {
@@ -45,24 +49,35 @@ func becomeLeader(kv storage.KvStorage, identity string) (backend.Backend, resou
 		err = rl.Update(rec)
 	}
 	if err != nil {
-		return nil, nil, fmt.Errorf("lock: %v", err)
+		return fmt.Errorf("lock: %v", err)
 	}
 	if _, err := rl.Get(); err != nil { // client-go reads the record it observes before acting on it
-		return nil, nil, fmt.Errorf("lock get: %v", err)
+		return fmt.Errorf("lock get: %v", err)
 	}
 	le := leader.NewLeaderElection(b, hx.NopMetrics{}, func(context.Context) {}, func() {})
 	le.(onStarted).VerifOnStartedLeading(context.Background())
 	vrt.Quiesce()
-	return b, rl, nil
+	return nil
+}
+
+func becomeLeader(kv storage.KvStorage, identity string) (backend.Backend, resourcelock.Interface, error) {
+	b, rl := newCandidate(kv, identity)
+	return b, rl, takeOver(b, rl, identity)
 }
 
 func c15Run(cfgIdx int, hist []int) *mc.SeqOut {
-	engine := c15Engines[cfgIdx]
+	engine := c15Engines[cfgIdx%len(c15Engines)]
+	// mode 0: the new leader is a node started after the old one stopped (restart / late joiner);
+	// mode 1: the new leader is a standby that has been polling the lock during the old leader's term
+	standby := cfgIdx/len(c15Engines) == 1
 	out := &mc.SeqOut{}
 	fail := func(sig, f string, a ...interface{}) {
 		var hs []string
 		for _, h := range hist {
 			hs = append(hs, c15OpNames[h])
+		}
+		if standby {
+			sig += "|standby-takes-over"
 		}
 		out.Viols = append(out.Viols, mc.Violation{Sig: "C15|" + sig + "|" + engine, Detail: fmt.Sprintf("old leader history [%s]: ", strings.Join(hs, ", ")) + fmt.Sprintf(f, a...)})
 	}
@@ -78,6 +93,24 @@ func c15Run(cfgIdx int, hist []int) *mc.SeqOut {
 	}
 	w := &world{engine: engine, kv: hx.NewDeco(kv, false), b: old, cleanup: func() {}}
 	m := newMvcc()
+	var sb backend.Backend
+	var sbLock resourcelock.Interface
+	poll := func() bool {
+		if !standby {
+			return true
+		}
+		if _, err := sbLock.Get(); err != nil {
+			fail("standby-poll", "%v", err)
+			return false
+		}
+		return true
+	}
+	if standby {
+		sb, sbLock = newCandidate(kv, "new")
+		if !poll() {
+			return out
+		}
+	}
 	first := old.GetCurrentRevision()
 	for _, a := range hist {
 		switch {
@@ -122,12 +155,20 @@ func c15Run(cfgIdx int, hist []int) *mc.SeqOut {
 				fail("renew-update", "%v", err)
 				return out
 			}
+			if !poll() { // the standby observes the renewal
+				return out
+			}
 		}
 	}
 	_, oldIssued := backend.VerifPeek(old)
 	// the old leader stops here; some time passes; a new node takes over the same store
 	vrt.Advance(time.Millisecond)
-	nb, _, err := becomeLeader(kv, "new")
+	var nb backend.Backend
+	if standby {
+		nb, err = sb, takeOver(sb, sbLock, "new")
+	} else {
+		nb, _, err = becomeLeader(kv, "new")
+	}
 	if err != nil {
 		fail("new-leader-start", "%v", err)
 		return out
@@ -201,7 +242,7 @@ func init() {
 	mc.Register(&mc.Property{
 		ID:     "C15",
 		Level:  "fault_enumeration",
-		Rule:   "every history of the old leader up to depth 3 (thorough 4) over {create/update/delete on 2 keys, 1/10/100 failed writes (which consume revisions without touching the engine), lock renewal}, the old leader stopping after every history (every prefix is a history), then a new backend over the same store taking the lock over through the real resource lock and running the production OnStartedLeading code; on memkv (virtual clock advanced by 1 ms), badger and tikv-mock with a fresh database per history; oracle: the first three revisions of the new leader exceed every revision in the store, guarded updates of all pre-existing live keys succeed, List equals the model; a case is distinct by its history and engine",
+		Rule:   "every history of the old leader up to depth 3 (thorough 4) over {create/update/delete on 2 keys, 1/10/100 failed writes (which consume revisions without touching the engine), lock renewal}, the old leader stopping after every history (every prefix is a history), then a new leader over the same store - either a node started afterwards, or a standby created at the start that polled the lock during the old leader's term (after its election and after every renewal) - taking the lock over through the real resource lock (get, update, get) and running the production OnStartedLeading code; on memkv (virtual clock advanced by 1 ms), badger and tikv-mock with a fresh database per history; oracle: the first three revisions of the new leader exceed every revision in the store, guarded updates of all pre-existing live keys succeed, List equals the model; a case is distinct by its history and engine",
 		Assume: []string{"OnStartedLeading is the production function literal, lifted by the instrumenter into a callable method (client-go's real-time elector loop is not run)", "the old leader is simply not used any more (crash = stop)"},
 		Exec:   func(j *mc.Job) *mc.JobResult { return mc.SeqExec(j, c15Run) },
 		Drive: func(c *mc.Ctx) {
@@ -211,8 +252,9 @@ func init() {
 			}
 			total := mc.SeqStats{}
 			per := map[string]mc.SeqStats{}
-			for i, e := range c15Engines {
+			for i := 0; i < 2*len(c15Engines); i++ {
 				d := depth
+				e := c15Engines[i%len(c15Engines)] + []string{"/restart", "/standby"}[i/len(c15Engines)]
 				st := mc.DriveSeq(c, "bfs", i, len(c15OpNames), d)
 				per[e] = st
 				total.States += st.States
